@@ -543,3 +543,64 @@ Lemma prepare_body_spec b :
   | BNotSet => prepare_body b = PNotSet
   end.
 Proof. destruct b; reflexivity. Qed.
+
+(* ------------------------------------------------------------------------------------------------ *)
+(* access histories on one operation object: the strategy arguments follow the CURRENT configuration *)
+Lemma run_events_app extra o h1 : forall st h2,
+  run_events extra o st (h1 ++ h2) = run_events extra o st h1 ++ run_events extra o (state_after st h1) h2.
+Proof.
+  induction h1 as [|e r IH]; intros st h2; cbn [app run_events state_after fold_left]; auto.
+  destruct e; rewrite IH; reflexivity.
+Qed.
+
+Lemma args_follow_current_config extra o st h pc :
+  run_events extra o st (h ++ [EDraw pc]) = run_events extra o st h ++ [draw_call extra o (state_after st h) pc].
+Proof. rewrite run_events_app. reflexivity. Qed.
+
+Lemma state_ignores_draws h : forall st, state_after st h = state_after st (filter (fun e => negb (is_draw e)) h).
+Proof.
+  unfold state_after. induction h as [|e r IH]; intros st; cbn [filter fold_left]; auto.
+  destruct e; cbn [is_draw negb fold_left step_state]; apply IH.
+Qed.
+
+Lemma state_after_app st h1 h2 : state_after st (h1 ++ h2) = state_after (state_after st h1) h2.
+Proof. unfold state_after. apply fold_left_app. Qed.
+
+(* the configuration in effect is the last one configured; a per-call configuration wins for that draw only *)
+Lemma config_is_latest extra o st h c pc :
+  let call := fst (draw_call extra o (state_after st (h ++ [EConfigure c])) pc) in
+  let eff := match pc with Some c' => c' | None => c end in
+  sc_allow_x00 call = g_allow_x00 eff /\ sc_allow_null call = g_allow_null eff /\ sc_codec call = g_codec eff.
+Proof.
+  cbn zeta. rewrite state_after_app. unfold state_after at 1. cbn [fold_left step_state].
+  unfold draw_call, strategy_call. cbn [fst st_cfg sc_allow_x00 sc_allow_null sc_codec].
+  destruct pc; repeat split; reflexivity.
+Qed.
+
+(* earlier draws leave no trace: the call of a draw is the same with every earlier draw removed *)
+Lemma draws_do_not_stick extra o st h pc :
+  draw_call extra o (state_after st h) pc =
+  draw_call extra o (state_after st (filter (fun e => negb (is_draw e)) h)) pc.
+Proof. rewrite <- state_ignores_draws. reflexivity. Qed.
+
+Lemma history_calls_target c extra o h : forall st,
+  In o (root_fields c) ->
+  Forall (fun call => hg_accepts c (fst call) = true /\ hg_target c (fst call) = Some (o_type o, [o_field o]))
+         (run_events extra o st h).
+Proof.
+  intros st Hin. revert st. induction h as [|e r IH]; intros st; cbn [run_events]; [constructor|].
+  destruct e; try apply IH. constructor; [|apply IH].
+  unfold draw_call. cbn [fst].
+  destruct (strategy_targets_field c (match percall with Some c0 => c0 | None => st_cfg st end)
+              (map fst (tbl_merge extra (st_reg st))) o Hin) as [H1 [H2 _]]. split; assumption.
+Qed.
+
+Definition cfg_loose : gen_config := {| g_allow_x00 := true; g_allow_null := true; g_codec := Some [117;116;102;45;56]%N |}.
+Definition cfg_strict : gen_config := {| g_allow_x00 := false; g_allow_null := false; g_codec := Some [97;115;99;105;105]%N |}.
+Example history_nonvacuous :
+  let o := {| o_root := RQuery; o_type := n_Query; o_field := n_foo |} in
+  let h := [EDraw None; EConfigure cfg_strict; ERegister true true n_Long 7%N; EDraw None; EDraw (Some cfg_loose)] in
+  map (fun call => (sc_allow_null (fst call), tbl_get n_Long (snd call)))
+      (run_events [(n_Long, 2%N)] o {| st_cfg := cfg_loose; st_reg := [] |} h)
+  = [(true, Some 2%N); (false, Some 7%N); (true, Some 7%N)].
+Proof. vm_compute. reflexivity. Qed.
